@@ -35,7 +35,7 @@ int main(void) { \
 		while (len > 0 && (line[len-1] == '\n' || line[len-1] == '\r')) line[--len] = 0; \
 		if (len == 0) continue; \
 		if (strncmp(line, "case ", 5) == 0) { \
-			printf("%s\n", line); fflush(stdout); vh_reset(); continue; } \
+			printf("%s\n", line); fflush(stdout); alarm(VH_OP_TIMEOUT); vh_reset(); alarm(0); continue; } \
 		int argc_ = 0; char *save = NULL; \
 		for (char *t = strtok_r(line, " ", &save); t && argc_ < VH_MAX_TOK; \
 				t = strtok_r(NULL, " ", &save)) argv_[argc_++] = t; \
@@ -45,6 +45,6 @@ int main(void) { \
 		alarm(0); \
 		fflush(stdout); \
 	} \
-	vh_reset(); free(line); return 0; }
+	alarm(VH_OP_TIMEOUT); vh_reset(); alarm(0); free(line); return 0; }
 
 #endif
